@@ -1,5 +1,6 @@
 import RoaringModel.Spec
 import RoaringModel.Lemmas.ArrFacts
+import RoaringModel.Inv
 /-!
 # Facts about the SPEC operations (sets as strictly ascending lists)
 
@@ -171,6 +172,121 @@ theorem interval_none (maxV : Nat) (lo hi : Bound) (h : interval maxV lo hi = no
       have := (u2 x).mpr ⟨h2, h3⟩
       have := (lower_le lo x).mpr h1
       omega
+
+end Spec
+
+set_option linter.unusedSimpArgs false in
+/-- `convert_range_to_inclusive` (util.rs) computes exactly the interval of values selected by the two
+    bounds, and fails exactly when that interval is empty. -/
+theorem convertRange_interval (maxV : Nat) (lo hi : Bound) (hlo : Bound.le maxV lo) (hhi : Bound.le maxV hi) :
+    (match convertRange maxV lo hi with
+     | .ok r => some r
+     | .error _ => none) = Spec.interval maxV lo hi := by
+  cases lo with
+  | incl s =>
+    cases hi with
+    | incl e =>
+      simp only [Bound.le] at hlo hhi
+      have hm : min e maxV = e := by omega
+      by_cases h : s > e
+      · have h' : ¬ s ≤ e := by omega
+        simp [convertRange, Spec.interval, Spec.lower, Spec.upper, hm, h, h']
+      · have h' : s ≤ e := by omega
+        simp [convertRange, Spec.interval, Spec.lower, Spec.upper, hm, h, h']
+    | excl e =>
+      simp only [Bound.le] at hlo hhi
+      cases e with
+      | zero =>
+        by_cases h : s > 0
+        · simp [convertRange, Spec.interval, Spec.lower, Spec.upper, h]
+        · simp [convertRange, Spec.interval, Spec.lower, Spec.upper, h]
+      | succ e =>
+        have hm : min e maxV = e := by omega
+        by_cases h : s > e + 1
+        · have h' : ¬ s ≤ e := by omega
+          simp [convertRange, Spec.interval, Spec.lower, Spec.upper, hm, h, h']
+        · by_cases h2 : s > e
+          · have h' : ¬ s ≤ e := by omega
+            simp [convertRange, Spec.interval, Spec.lower, Spec.upper, hm, h, h', h2]
+          · have h' : s ≤ e := by omega
+            simp [convertRange, Spec.interval, Spec.lower, Spec.upper, hm, h, h', h2]
+    | unb =>
+      simp only [Bound.le] at hlo
+      have h : ¬ s > maxV := by omega
+      simp [convertRange, Spec.interval, Spec.lower, Spec.upper, h, hlo]
+  | excl s =>
+    cases hi with
+    | incl e =>
+      simp only [Bound.le] at hlo hhi
+      have hm : min e maxV = e := by omega
+      by_cases h : s > e
+      · have h' : ¬ s + 1 ≤ e := by omega
+        simp [convertRange, Spec.interval, Spec.lower, Spec.upper, hm, h, h']
+      · by_cases h2 : s = maxV
+        · have h' : ¬ s + 1 ≤ e := by omega
+          have h3 : ¬ maxV + 1 ≤ e := by omega
+          have h4 : ¬ maxV > e := by omega
+          simp [convertRange, Spec.interval, Spec.lower, Spec.upper, hm, h2, h3, h4]
+        · by_cases h3 : s + 1 > e
+          · have h' : ¬ s + 1 ≤ e := by omega
+            simp [convertRange, Spec.interval, Spec.lower, Spec.upper, hm, h, h', h2, h3]
+          · have h' : s + 1 ≤ e := by omega
+            simp [convertRange, Spec.interval, Spec.lower, Spec.upper, hm, h, h', h2, h3]
+    | excl e =>
+      simp only [Bound.le] at hlo hhi
+      cases e with
+      | zero =>
+        by_cases h : s = 0
+        · simp [convertRange, Spec.interval, Spec.lower, Spec.upper, h]
+        · have : s > 0 := by omega
+          simp [convertRange, Spec.interval, Spec.lower, Spec.upper, h, this]
+      | succ e =>
+        have hm : min e maxV = e := by omega
+        by_cases h0 : s = e + 1
+        · have h' : ¬ e + 1 + 1 ≤ e := by omega
+          simp [convertRange, Spec.interval, Spec.lower, Spec.upper, hm, h0, h']
+        · by_cases h : s > e + 1
+          · have h' : ¬ s + 1 ≤ e := by omega
+            simp [convertRange, Spec.interval, Spec.lower, Spec.upper, hm, h0, h, h']
+          · have h2 : ¬ s = maxV := by omega
+            by_cases h3 : s + 1 > e
+            · have h' : ¬ s + 1 ≤ e := by omega
+              simp [convertRange, Spec.interval, Spec.lower, Spec.upper, hm, h0, h, h', h2, h3]
+            · have h' : s + 1 ≤ e := by omega
+              simp [convertRange, Spec.interval, Spec.lower, Spec.upper, hm, h0, h, h', h2, h3]
+    | unb =>
+      simp only [Bound.le] at hlo
+      by_cases h2 : s = maxV
+      · simp [convertRange, Spec.interval, Spec.lower, Spec.upper, h2]
+      · have h3 : s + 1 ≤ maxV := by omega
+        have h4 : ¬ s + 1 > maxV := by omega
+        simp [convertRange, Spec.interval, Spec.lower, Spec.upper, h2, h3, h4]
+  | unb =>
+    cases hi with
+    | incl e =>
+      simp only [Bound.le] at hhi
+      have hm : min e maxV = e := by omega
+      simp [convertRange, Spec.interval, Spec.lower, Spec.upper, hm]
+    | excl e =>
+      simp only [Bound.le] at hhi
+      cases e with
+      | zero => simp [convertRange, Spec.interval, Spec.lower, Spec.upper]
+      | succ e =>
+        have hm : min e maxV = e := by omega
+        simp [convertRange, Spec.interval, Spec.lower, Spec.upper, hm]
+    | unb => simp [convertRange, Spec.interval, Spec.lower, Spec.upper]
+
+theorem convertRange_ok (maxV : Nat) (lo hi : Bound) (hlo : Bound.le maxV lo) (hhi : Bound.le maxV hi)
+    (a b : Nat) (h : convertRange maxV lo hi = .ok (a, b)) : Spec.interval maxV lo hi = some (a, b) := by
+  have := convertRange_interval maxV lo hi hlo hhi
+  rw [h] at this; exact this.symm
+
+theorem convertRange_error (maxV : Nat) (lo hi : Bound) (hlo : Bound.le maxV lo) (hhi : Bound.le maxV hi)
+    (e : ConvErr) (h : convertRange maxV lo hi = .error e) : Spec.interval maxV lo hi = none := by
+  have := convertRange_interval maxV lo hi hlo hhi
+  rw [h] at this; exact this.symm
+
+namespace Spec
 
 /-! ### push / remove_smallest / remove_biggest -/
 theorem push_eq (s : List Nat) (v : Nat) (h : Roaring.Sorted s) :
